@@ -239,3 +239,47 @@ func nativeConfigFor(n *Native, job *Job, src string) string {
 	}
 	return dir
 }
+
+// replayCovers re-judges "covers"/"demand" expectations natively.
+func replayCovers(n *Native, job *Job, v *Violation) (ReplayResult, bool) {
+	if v.Kind != "assert" {
+		return ReplayResult{}, false
+	}
+	src, ok := v.Witness["src"]
+	row, ok2 := v.Witness[v.ID+".row"]
+	if !ok || !ok2 {
+		return replayKindsProgram(n, job, v)
+	}
+	conc, okc := concretizeSym(src, v.Witness)
+	if !okc {
+		return ReplayResult{Observed: "cannot make the skeleton concrete"}, true
+	}
+	out, _, _ := n.RunTi(map[string]string{"a.rb": conc}, []string{"./a.rb"}, nativeConfigFor(n, job, src))
+	got := lineFor(out, row)
+	v.Witness["native-program"] = conc
+	res := ReplayResult{Cmd: "ti ./a.rb   # " + fmt.Sprintf("%q", conc)}
+	if cov, have := v.Witness[v.ID+".covers"]; have {
+		ok := got == "untyped"
+		if !ok {
+			ok = true
+			for _, k := range strings.Split(cov, ",") {
+				if k != "" && !strings.Contains(got, k) {
+					ok = false
+				}
+			}
+		}
+		res.Reproduced = !ok
+		res.Observed = fmt.Sprintf("row %s: native reports %q, which must name all of %q", row, got, cov)
+		return res, true
+	}
+	switch v.Witness[v.ID+".demand"] {
+	case "diagnostic":
+		res.Reproduced = got == ""
+	case "none":
+		res.Reproduced = got != ""
+	default:
+		return replayKindsProgram(n, job, v)
+	}
+	res.Observed = fmt.Sprintf("row %s: native reports %q, the property demands: %s", row, got, v.Witness[v.ID+".demand"])
+	return res, true
+}
